@@ -92,6 +92,8 @@ def job_slice(T, Fc, asc, geom):
             dis += [lift(s.df) != lift(fr.df), lift(s.dt) != lift(fr.dt)]
         if s.metadata.get('note') != 'x':
             py.append('metadata')
+        if fr.metadata.get('drift_rate') != 1.5 or fr.metadata.get('note') != 'x':
+            py.append(f"parent's user metadata changed to {fr.metadata.get('drift_rate')!r}, {fr.metadata.get('note')!r}")
         r, m = core.check(base + [z3.Or(*dis)], timeout_ms=60000)
         recs.append(q(name, r))
         if r == 'sat' or py:
@@ -114,6 +116,7 @@ def job_dedrift(T, Fc, asc, geom, sign, via_metadata):
     lim = (Fc + 1) * dfv / (T * dtv)
     pre = [d.t >= 0, d.t <= RV(lim)] if sign > 0 else [d.t < 0, d.t >= RV(-lim)]
     D = sym_data(T, Fc)
+    again = [None]
 
     def run():
         fr = make_frame(T, Fc, asc, Sym(RV(dfv)), Sym(RV(dtv)), Sym(RV(g['fch1'])), t_start=t0, source_name='SRC_B')
@@ -121,10 +124,13 @@ def job_dedrift(T, Fc, asc, geom, sign, via_metadata):
         if via_metadata:
             fr.add_metadata({'drift_rate': d})
             out = DD.dedrift(fr)
+            # deriving does not change the parent: the rate it records is still d and a second derivation is the same
+            again[0] = (fr.metadata.get('drift_rate'), DD.dedrift(fr))
         else:
             out = DD.dedrift(fr, d)
+            again[0] = None
         fr.data[0, 0] = Sym(z3.Real('poison'))
-        return fr, out
+        return fr, out, again[0]
     with patches():
         leaves = core.explore(run, pre, cap=3000, catch=(ValueError, IndexError, TypeError, KeyError, AssertionError))
     ad = z3.If(d.t >= 0, d.t, -d.t)
@@ -144,9 +150,17 @@ def job_dedrift(T, Fc, asc, geom, sign, via_metadata):
             if r == 'sat':
                 recs.append(cex('C17:dedrift:raise', f'dedrift raised {leaf.value!r} although channels remain', mk_pl(m), name=name + ':reject-iff-empty'))
             continue
-        fr, out = leaf.value
+        fr, out, rep = leaf.value
         W = out.data.shape[1]
         dis, py = common_claims(out, (asc, fr.df, fr.dt, t0, 'SRC_B'))
+        if rep is not None:
+            kept, out2 = rep
+            if kept is None or out2.data.shape != out.data.shape:
+                py.append(f"second de-drift of the same parent: shape {out2.data.shape} vs {out.data.shape}, recorded rate {kept!r}")
+            else:
+                dis.append(lift(kept) != d.t)
+                dis += [lift(a) != lift(b) for a, b in zip(out2.data.flat, out.data.flat)]
+                dis += [lift(a) != lift(b) for a, b in zip(out2.fs, out.fs)]
         dis.append(maxoff >= Fc)                      # must have been rejected
         dis.append(RV(W) != Fc - maxoff)
         if out.data.shape[0] != T or len(out.fs) != W or len(out.ts) != T:
@@ -314,6 +328,14 @@ def replay_dedrift(p):
         return True, f"dedrift({d}) accepted a rate leaving no channels (max offset {mo}, {Fc} channels)"
     bad = _attrs(out, fr)
     W = Fc - mo
+    if p.get('via_metadata'):
+        if fr.metadata.get('drift_rate') != d:
+            bad.append(f"de-drifting changed the rate recorded in the parent's metadata from {d!r} to {fr.metadata.get('drift_rate')!r}")
+        out2 = stg.dedrift(fr)
+        if out2.data.shape != out.data.shape or not np.array_equal(out2.data, out.data) or not np.array_equal(out2.fs, out.fs):
+            bad.append(f"de-drifting the same parent a second time gives shape {out2.data.shape} instead of {out.data.shape} / other values")
+    if not np.array_equal(fr.data, D) or fr.metadata.get('note') != 'x':
+        bad.append("parent data / metadata changed")
     if out.data.shape != (T, W):
         bad.append(f"shape {out.data.shape} != {(T, W)}")
     else:
